@@ -37,6 +37,26 @@ theorem C06_owed (kind : List Byte → Kind) (C : Consts) (hstep : 0 < C.step) (
     have : ¬ count = 0 := by omega
     simp [Chain.new, this]
 
+/-- **The stream does not sit on a reply that is there.** Under the hypotheses of `C06_owed`: once every byte of the
+    peer's stream has arrived, no poll of the stream is pending while a reply is still owed - the completeness oracle
+    `SpecChain.complete`, which the driver evaluates on the real stream's outcomes (a stream that lost its wake-up, or
+    that waits for something nobody sends, fails it). -/
+theorem C06_complete (kind : List Byte → Kind) (C : Consts) (hstep : 0 < C.step) (sizes : Nat → Nat)
+    (count : Nat) (F T : List (List Byte)) (hF : ∀ f ∈ F ++ T, FrameOK f)
+    (hmax : (enc (F ++ T)).length < C.max) (hconf : Conforming kind count F = true)
+    (evs : List Ev) (hev : EvsOK evs (enc (F ++ T))) :
+    complete evs (srun kind C sizes evs (Chain.new count) (init C) net0).1 (enc (F ++ T)).length F.length = true := by
+  apply srun_complete kind C hstep sizes F T hF hmax count evs (Chain.new count) (init C) net0
+    (enc (F ++ T)) [] F (by simp) (inv_init C hstep (F ++ T)) hev (by simp [net0]) rfl hconf
+  cases F with
+  | nil =>
+    simp only [Conforming, owedWalk, beq_iff_eq] at hconf
+    simp [Chain.new, ← hconf]
+  | cons a b =>
+    simp only [Conforming, owedWalk, Bool.and_eq_true, decide_eq_true_eq] at hconf
+    have : ¬ count = 0 := by omega
+    simp [Chain.new, this]
+
 /-- **A parked reply stream needs no polling.** A poll of the stream that ended pending has taken everything the
     transport held; polling the stream again before anything arrives is pending again and changes neither the stream's
     bookkeeping nor the connection's buffer and cursors nor the transport. A consumer that polls the stream only when its
